@@ -143,14 +143,30 @@ func ruleRepeatedDependencyIsOneEdge(c *Check, rule string) {
 		if lp == nil {
 			continue
 		}
-		// the loop ranges over the declared dependencies of a node
-		rng, _ := engine.CallOf(lp.RangedValue())
-		if rng == nil || !rng.Common().IsInvoke() || rng.Common().Method.Name() != "GetDependencies" {
+		// the loop ranges over the declared dependencies of a node (directly, or through a helper that lists them)
+		helper, isDeps := declaredDependencyList(c, lp.RangedValue())
+		if !isDeps {
 			continue
 		}
 		n++
 		key := "repeated-dependency-one-edge/" + c.P.FuncName(fn)
+		helperDedups := false
+		if helper != nil {
+			for _, b := range helper.Blocks {
+				for _, in := range b.Instrs {
+					if ap, ok := in.(*ssa.Call); ok {
+						if bi, isB := ap.Call.Value.(*ssa.Builtin); isB && bi.Name() == "append" {
+							if hl := engine.LoopOf(ap); hl != nil && seenSkipIn(hl, ap, nil) {
+								helperDedups = true
+							}
+						}
+					}
+				}
+			}
+		}
 		switch {
+		case helperDedups:
+			c.OK(rule, key, "the helper that lists a node's dependencies keeps the first occurrence of each label only", c.P.InstrPos(s))
 		case guardedAdd:
 			c.OK(rule, key, "the edge-adding function refuses an edge that exists", c.P.InstrPos(s))
 		case seenSkipIn(lp, s, nil):
